@@ -318,12 +318,12 @@ BOUNDS = {"quick": {"spatial search": "2 x 1 and 2 x 2 points, a history of two 
                     "matrix / report order / shuffle permutation of the tree, every magnitude_factor in [1, 12]",
                     "temporal check": "k <= 2 pairs, all integer-nanosecond times in [0, 1e13] and every max_interval (ns)",
                     "collocate": "datasets of 1-2 points (unsorted times, sub-second offsets), every NaN pattern of the latitudes, every "
-                                 "membership matrix / order / permutation; thresholds as unit strings and as numbers"},
+                                 "membership matrix / order / permutation; thresholds as unit strings and as numbers; three explicit closed [start, end] windows"},
           "thorough": {"spatial search": "adds 3 x 1", "temporal check": "k <= 3", "collocate": "adds 3 x 2 and 2 x 3"}}
 OUTSIDE = ["the spatial predicate itself (sklearn tree + metric embedding; contract stub, see C06)",
            "the temporally pre-binned path (> 1e6 candidate pairs; pandas groupby / searchsorted / .loc slicing)",
            "_flat_to_main_coord for gridded data (xarray stack)", "tunnel_limit, bin_factor, leaf_size (passed through)",
-           "start / end clipping beyond the default"]
+           "start / end as symbolic instants (the closed window [start, end] is decided for concrete windows whose ends coincide with or lie between data timestamps, given as datetime and as string)"]
 STUBS = ["SpecTree for sklearn's trees (arbitrary membership, order, distances)", "numpy.random.shuffle -> arbitrary permutation",
          "xarray / pandas run for real on concrete coordinates and times"]
 ASSUMPTIONS = ["times in K3 are concrete (milliseconds); the symbolic treatment of time differences is K2"]
